@@ -24,8 +24,8 @@ LEVEL = "exploration"
 RULE = (
     "A case is a batch of 12 scenarios taken in turn from a seed-shuffled permutation of the shared catalogue of library-component scenarios, so the quick tier (ceil(N/12) batches) executes every one of the N ~ 300 scenarios (catalogue + determinism-specific ones: string-fed sketches, every cache eviction policy under string keys, default-clock TTL cache, a ParallelSimulation fan-in whose worker threads are slowed in real time, load-balancer strategies fed with key-less requests, CRDT stores with a late joiner) (all families: "
     "sources, queues, servers, networks, consensus, storage, caches, sketches fed with str/bytes/tuple items, messaging, "
-    "...; default or hostile parameters) with one seed each, executed in 4 fresh interpreters: PYTHONHASHSEED=0 in "
-    "catalogue order; =1 in reverse order; =12345 shuffled, three of the scenarios run twice in a row; =random with "
+    "...; default or hostile parameters) with one seed each (seed 0, a legal and falsy seed, 12 % of the time), executed in 4 fresh interpreters: PYTHONHASHSEED=0 in "
+    "catalogue order; =1 in reverse order with an unrelated Simulation constructed (never run) between building each model and running it; =12345 shuffled, three of the scenarios run twice in a row; =random with "
     "time.time/monotonic/perf_counter replaced by offset+jumping clocks (the wall clock also stepping backwards). All executions of one (scenario, seed) must "
     "have equal digests = sha256(delivery log (time ns, event type, target) from the engine probe + public stats "
     "snapshot of every component, wall-clock fields removed). A mismatch is diagnosed by re-running that scenario alone "
@@ -61,7 +61,8 @@ def gen(rng: random.Random, tier: str) -> dict:
     for j in range(BATCH):
         n = perm[(idx * BATCH + j) % len(perm)]
         params = hostile_params(rng, tier) if rng.random() < 0.4 else {}
-        items.append({"name": n, "seed": rng.randrange(1 << 20), "params": params})
+        # 0 is a legal seed (and a falsy one)
+        items.append({"name": n, "seed": 0 if rng.random() < 0.12 else rng.randrange(1 << 20), "params": params})
     shuffled = list(range(len(items)))
     rng.shuffle(shuffled)
     return {
@@ -89,16 +90,17 @@ def run(case: dict) -> Result:
     items = case["items"]
     n = len(items)
     # "slow": which partition of a parallel scenario is slowed down in real time (thread timing is wall-clock too)
+    # the reverse-order interpreter also constructs an unrelated Simulation between building each model and running it
     plans = [
         ("0", list(range(n)), None, "A"),
-        ("1", list(reversed(range(n))), None, "B"),
+        ("1", list(reversed(range(n))), None, "B+bystander"),
         # every scenario once in shuffled order, the first three of them twice in a row
         ("12345", [i for k, i in enumerate(case["shuffle"]) for _ in ((0, 1) if k < 3 else (0,))], None, None),
         ("random", list(range(n)), case["time"], "A"),
     ]
     runs = []
     for hs, order, perturb, slow in plans:
-        out = _child({"items": items, "order": order, "perturb_time": perturb, "slow": slow}, hs)
+        out = _child({"items": items, "order": order, "perturb_time": perturb, "slow": (slow or "")[:1] or None, "interleave_construct": bool(slow and "bystander" in slow)}, hs)
         runs.append((hs, order, perturb, out["results"]))
     per_item: dict[int, list] = {i: [] for i in range(n)}
     for hs, order, perturb, results in runs:
@@ -156,6 +158,9 @@ def _diagnose(item, case) -> tuple[str, str]:
     sb = _child({**alone, "slow": "B"}, "0")["results"][0]
     if sa["digest"] != sb["digest"]:
         return "thread-timing", _first_diff(sa, sb)
+    by = _child({**alone, "interleave_construct": True}, "0")["results"][0]
+    if by["digest"] != a0["digest"]:
+        return "other-simulation-constructed-before-run", _first_diff(a0, by)
     twice = _child({"items": [item], "order": [0, 0], "perturb_time": None, "detail": True}, "0")["results"]
     if twice[0]["digest"] != twice[1]["digest"]:
         return "preceding-activity-same-scenario", _first_diff(twice[0], twice[1])
